@@ -1,8 +1,21 @@
-"""C17 — decided by the shared IRC-layer engine (checks/irc_common.py)."""
-from checks import irc_common
+"""C17 — decided by the shared IRC-layer engine (checks/irc_common.py); the HTTP-level stage
+(checks/irc_http.py) adds what a complete node does: lookups, DELETE and "receives nothing further"
+observed on the real long polls of ended sessions."""
+import json
+
+from checks import irc_common, irc_http
 
 LEVEL = "model_checking"
 
 
 def run(ctx):
+    rp = None
+    if getattr(ctx, "replay", None):
+        with open(ctx.replay) as fh:
+            rp = (json.load(fh).get("replay") or {}).get("rig_program")
+    if rp:
+        irc_http.report(ctx, "C17", replay_program=rp)
+        return
     irc_common.report(ctx, "C17")
+    if not getattr(ctx, "replay", None):
+        irc_http.report(ctx, "C17")
